@@ -65,6 +65,7 @@ def slice(ctx: fw.Ctx) -> fw.Outcome:
         else:
             cases.append((src, gen.render(src, rng, pm)))
     cases += ic.revisit_cases(rng, ic.prof(garbage=0.0, flags=0.0), ctx.n(12, 1200))
+    cases += ic.blank_line_cases(rng, ic.prof(garbage=0.0, phrases=0.4), ctx.n(25, 2500))
     ic.run(ctx, out, cases, project, lambda tl: [(t["tick"], t["lanes"]) for t in tl], "note ticks and lanes",
            lambda src: any(len(g.lanes) + g.tap + g.forced >= 2 for tr in src.tracks for g in tr.groups))
     ic.stable_under_reads(ctx, out, cases, "note events")
